@@ -1,6 +1,22 @@
 ALL = ["C%02d" % i for i in range(1, 21)]
 
 CLAIMED = {
+    "C01": dict(
+        text="PARTIAL. Lean 4 theorems for every permutation in which Go may deliver a map's entries: the sorted key list is unique "
+             "(sortedDirties, Storage.SortedKeys, omap.ensureOrder), a fold of per-key updates into a keyed store is order-independent "
+             "(miss counters, per-validator rewards, account writes, Go-map copies), a sum is order-independent, a first-match loop over "
+             "entries of which at most one matches is order-independent (methodById, registry.Pair), and Sudoers.ToPb persists one value "
+             "when it sorts — with a counterexample when it does not (fix: d7fa6c9). T1 (typed go/packages census, regenerated on every "
+             "run): the list of map-range sites, go statements, select statements, time.Now calls and consumers of set.Set.ToSlice in "
+             "the consensus packages equals the classified expectation (a new site, or a consumer that stops sorting, breaks the "
+             "obligation). T2: three real app replicas from one genesis executing identical blocks over all custom modules, compared "
+             "on app hash, DeliverTx results and validator updates at every height.",
+        note="NOT proved: that each site's loop body has the shape of its class (validated by the replica run), and the determinism of "
+             "the SDK, IAVL, wasmvm, the go-ethereum interpreter, goroutine scheduling and the Go runtime. Trusted: Lean kernel; "
+             "tools/mapranges; harness.",
+        technique="Lean 4 proof (induction over List.Perm; core mergeSort uniqueness) + regenerated typed census of map iterations "
+                  "(translator) + replica differential execution over ABCI with property oracle",
+        ref="§7 C01"),
     "C20": dict(
         text="PARTIAL. Lean 4 theorems over a model of the custom modules' genesis export/import (every collections field of every "
              "keeper classified exported / normalised / transient / derived / dropped): for every module and every state, a second "
